@@ -54,6 +54,19 @@ Theorem C02_rigid_invariant_fitted : forall (M : M3) (q q' : Q4) ref vec t g, pr
 Proof. exact fitted_rigid_M. Qed.
 Print Assumptions C02_rigid_invariant_fitted.
 
+(* a group fitted through a separate fittingGroup (fitg): its coordinates in the fitted frame are unchanged by a rigid
+   motion of all atoms; with rotateToReference off, by translations *)
+Theorem C02_rigid_invariant_fitting_group : forall (M : M3) (q q' : Q4) ref t fitg g, proper_rotation M -> fitg <> [] ->
+  unique_optimum (fit_pairs Rops ref fitg) ->
+  is_optimal q (fit_pairs Rops ref fitg) -> is_optimal q' (fit_pairs Rops ref (shift_group t (rot_group M fitg))) ->
+  fit_general Rops true q' ref (shift_group t (rot_group M fitg)) (shift_group t (rot_group M g)) = fit_general Rops true q ref fitg g /\
+  fit_general Rops false q ref (shift_group t fitg) (shift_group t g) = fit_general Rops false q ref fitg g /\
+  fit_general Rops true q ref g g = fit_positions Rops q ref g.
+Proof.
+  intros. split; [apply (fit_general_rigid M q q'); assumption | split; [apply fit_general_center_shift; assumption | apply fit_general_self]].
+Qed.
+Print Assumptions C02_rigid_invariant_fitting_group.
+
 (* orientation family: unchanged by translations (same pairs, hence same quaternion and same angles); under a rotation p
    of the atoms the optimal rotation becomes p o q and the least deviation is unchanged *)
 Theorem C02_translation_invariant_orientation : forall ref t g, g <> [] ->
